@@ -108,6 +108,20 @@ func (env *Env) eval(x Expr) (Val, error) {
 		}
 		return env.index(xv, iv)
 	case EUnary:
+		if n.Op == "&" {
+			// address of a package-level variable
+			if id, ok := n.X.(EIdent); ok {
+				for _, tp := range env.e.P.pkgsByName[env.pkg] {
+					if sp := env.e.P.Prog.Package(tp); sp != nil {
+						if g, ok := sp.Members[id.Name].(*ssa.Global); ok {
+							t := g.Type().(*types.Pointer).Elem()
+							return Val{T: g.Type(), Addr: &Addr{Kind: aGlobal, Global: g, Root: t, T: t}}, nil
+						}
+					}
+				}
+			}
+			return Val{}, fmt.Errorf("& is only supported on package-level variables")
+		}
 		xv, err := env.eval(n.X)
 		if err != nil {
 			return Val{}, err
@@ -307,12 +321,17 @@ func (env *Env) field(xv Val, name string) (Val, error) {
 				na.Off += off
 				na.T = st.Field(i).Type()
 				out := env.e.load(env.st, &na)
-				if len(env.qvars) == 0 && a.Kind != aCell {
+				if env.e.inQuant == 0 && a.Kind != aCell {
 					// references read from memory follow the numbering convention (see outsideRef)
 					for i, l := range Layout(out.T) {
 						if (l.Kind == kRef || l.Kind == kSlArr || l.Kind == kIfRef) && len(out.L[i].S) < 400 {
 							env.e.outsideRef(True, out.L[i])
 						}
+					}
+					if len(out.L) <= 2 {
+						env.e.noOutside = true
+						env.e.assumeWF(True, out)
+						env.e.noOutside = false
 					}
 				}
 				return out, nil
@@ -562,10 +581,10 @@ func (env *Env) callExpr(n ECall) (Val, error) {
 		cl := env.e.labels[lbl]
 		if fname == "called" {
 			if cl == nil {
-				if env.e.knownLabel(lbl) {
-					return boolVal(False), nil
+				if !env.e.knownLabel(lbl) {
+					env.e.note("contract mentions call site %s which does not exist in %s (called() is false)", lbl, env.e.FuncID)
 				}
-				return Val{}, fmt.Errorf("no call site %s in %s", lbl, env.e.FuncID)
+				return boolVal(False), nil
 			}
 			return boolVal(cl.Reach), nil
 		}
@@ -678,10 +697,28 @@ func (env *Env) callExpr(n ECall) (Val, error) {
 			return boolVal(T(SBool, "(str_fold %s %s)", ts[0], ts[1])), nil
 		}
 		return Val{}, fmt.Errorf("bad arguments to %s", fname)
+	case "isrwlock":
+		if err := argN(1); err != nil {
+			return Val{}, err
+		}
+		l, err := env.evalTerm(n.Args[0])
+		if err != nil {
+			return Val{}, err
+		}
+		return boolVal(T(SBool, "(= (rtype %s) %d)", l, env.e.P.typeTag(env.e.P.rwMutexType()))), nil
+	case "norwlocks":
+		// no reader/writer lock (entry or repository lock) is held; plain mutexes (process-wide refresh lock) may be
+		env.e.declare("alloc0", SInt)
+		tag := env.e.P.typeTag(env.e.P.rwMutexType())
+		return boolVal(T(SBool, "(forall ((lk Int)) (! (=> (= (rtype lk) %d) (= (select %s lk) 0)) :pattern ((select %s lk))))", tag, env.e.heldArr(env.st), env.e.heldArr(env.st))), nil
 	case "nolocks":
 		return boolVal(Eq(env.e.heldArr(env.st), T(ArraySort(SInt, SInt), "((as const (Array Int Int)) 0)"))), nil
 	case "sameLocks":
-		return boolVal(Eq(env.e.heldArr(env.st), env.e.heldArr(env.e.old))), nil
+		o := env.old
+		if o == nil {
+			o = env.e.old
+		}
+		return boolVal(Eq(env.e.heldArr(env.st), env.e.heldArr(o))), nil
 	case "typeis":
 		if err := argN(2); err != nil {
 			return Val{}, err
@@ -805,6 +842,22 @@ func (env *Env) callExpr(n ECall) (Val, error) {
 			cs = append(cs, T(SBool, "(forall ((oa Int)) (! (=> (and (<= oa %s) (not (= oa %s))) (= (select %s oa) (select %s oa))) :pattern ((select %s oa))))", bound, v.L[0], cur, old, cur))
 		}
 		return boolVal(And(cs...)), nil
+	case "samearray":
+		if err := argN(2); err != nil {
+			return Val{}, err
+		}
+		a, err := env.eval(n.Args[0])
+		if err != nil {
+			return Val{}, err
+		}
+		b, err := env.eval(n.Args[1])
+		if err != nil {
+			return Val{}, err
+		}
+		if len(a.L) != 4 || len(b.L) != 4 {
+			return Val{}, fmt.Errorf("samearray() needs two slices")
+		}
+		return boolVal(Eq(a.L[0], b.L[0])), nil
 	case "payload":
 		// the reference an interface value carries
 		if err := argN(1); err != nil {
